@@ -25,6 +25,15 @@ func TestC01(t *testing.T) {
 		}
 		c01History(r, id)
 	}
+	// directed: governance campaigns on the EVM parameters in quick succession (half of them rolled
+	// back), so that followers which restart along the way meet state that changed under them
+	for i := 0; i < r.Pick(3, 8); i++ {
+		id := fmt.Sprintf("gov/%d", i)
+		if !r.Want(id, nh+i) {
+			continue
+		}
+		c01History(r, id)
+	}
 }
 
 func followerKnobs(r *report.R, id string, nfollow int) []replicaKnobs {
@@ -48,6 +57,12 @@ func followerKnobs(r *report.R, id string, nfollow int) []replicaKnobs {
 		k.Preconstr = rng.Intn(2) == 0
 		if rng.Intn(3) > 0 {
 			k.Schedule = rng.Int63() | 1
+		}
+		if rng.Intn(2) == 0 {
+			// a replica that is stopped and started again along the way is still a replica
+			for i := 0; i < 1+rng.Intn(4); i++ {
+				k.RestartAt = append(k.RestartAt, 2+rng.Intn(55))
+			}
 		}
 		ks = append(ks, k)
 	}
@@ -119,6 +134,10 @@ func c01History(r *report.R, id string) {
 	g := newHistGen(h, r.Rand(id))
 	g.boostRewardFees = true // map-order-sensitive path: which delegations' rewards pay a fee
 	nblocks := r.Pick(60, 200)
+	if strings.HasPrefix(id, "gov/") {
+		g.campEvery, g.campFailEvery, g.campKinds, g.slowBlocks = 2, 2, []int{0, 1, 2, 3, 3, 3, 4, 5, 7}, true
+		nblocks = r.Pick(60, 120)
+	}
 	for b := 0; b < nblocks; b++ {
 		g.block()
 	}
@@ -152,6 +171,16 @@ func c01History(r *report.R, id string) {
 	}
 	nfollow := r.Pick(3, 6)
 	knobs := followerKnobs(r, id, nfollow)
+	if strings.HasPrefix(id, "gov/") {
+		// every follower of a directed history restarts several times
+		rr := r.Rand(id + "/restarts")
+		for i := range knobs {
+			knobs[i].RestartAt = nil
+			for j := 0; j < 6; j++ {
+				knobs[i].RestartAt = append(knobs[i].RestartAt, 3+rr.Intn(nblocks-4))
+			}
+		}
+	}
 	if os.Getenv("VERIF_RACE") == "1" {
 		knobs[0].QueryStorm = 6
 	}
